@@ -33,7 +33,25 @@ func GenPlan(family string, seed uint64) *Plan {
 	if p.Bucket == "" {
 		p.Bucket = "leaders"
 	}
+	bareConfig(p, seed)
 	return p
+}
+
+// bareConfig: in one plan out of six some instances are configured without the optional Metrics
+// and/or Logger (both may legally be nil). Drawn from a stream of its own, so that the rest of the
+// seed-th plan of a family is what it was before this variant existed.
+func bareConfig(p *Plan, seed uint64) {
+	if p.Sched.Free || len(p.Insts) == 0 {
+		return
+	}
+	r := NewRng(seed, "bare/"+p.Family)
+	if !r.Bool(1.0 / 6) {
+		return
+	}
+	for i := range p.Insts {
+		p.Insts[i].NoMetrics = r.Bool(0.6)
+		p.Insts[i].NoLogger = r.Bool(0.6)
+	}
 }
 
 var families = map[string]func(*Rng) *Plan{}
